@@ -370,6 +370,10 @@ def suite_util(rng: random.Random, tier: str) -> Suite:
         w = FakeWorld()
         mutil.connect_many_to_one(w, list(range(n_src)), 500, "a")
         s.add(f"m2o {s_list(list(range(n_src)))} 500", f"ok {len(w.calls)}" + "".join(f" {a} {b}" for a, b in w.calls), "m2o")
+        for flav, wrap in (("generator", lambda l: (x for x in l)), ("iterator", iter), ("tuple", tuple)):
+            w = FakeWorld()
+            mutil.connect_many_to_one(w, wrap(list(range(n_src))), 500, "a")
+            s.add(f"m2o {s_list(list(range(n_src)))} 500", f"ok {len(w.calls)}" + "".join(f" {a} {b}" for a, b in w.calls), "m2o:" + flav)
     return s
 
 
